@@ -147,7 +147,7 @@ def run(ctx, chk):
         if b:
             r, _ = single_return(chk, "S-nth", "SeqSlice::nth", cfg, b)
             if r:
-                chk.ob("S-nth", "SeqSlice::nth", an.is_decode(r.ret) == ("sym1", P(1), canon(P(2))), "nth(i) = %s, expected decode(self[i])" % show(r.ret), b["span"])
+                chk.ob("S-nth", "SeqSlice::nth", an.is_decode(r.ret, nth=False) == ("sym1", P(1), canon(P(2))), "nth(i) = %s, expected decode(self[i])" % show(r.ret), b["span"])
         # decode's byte: From<&SeqSlice> for u8 = load_le::<u8>(bits)
         b = an.one(chk, "S-byte", bio, "u8::from(&SeqSlice)", name="from", trait="std::convert::From", self_re=r"^u8$", targ_re=r"^&seq::slice::SeqSlice<A>$")
         if b:
